@@ -659,6 +659,10 @@ func (p *Parser) evaluateImports(ctx context) ([]Statement, error) {
 		}
 
 		for {
+			// Skip empty lines within an import block.
+			for multiple && p.peek().Type() == lexer.NEWLINE {
+				p.eat()
+			}
 			imp, err := p.evaluateImport()
 
 			if err != nil {
@@ -726,6 +730,9 @@ func (p *Parser) evaluateImports(ctx context) ([]Statement, error) {
 				}
 			}
 
+			for multiple && p.peek().Type() == lexer.NEWLINE {
+				p.eat()
+			}
 			nextToken = p.peek()
 			nextTokenType := nextToken.Type()
 
@@ -1660,6 +1667,11 @@ func (p *Parser) evaluateSwitch(ctx context) (Statement, error) {
 		},
 	}
 	useMock := true
+
+	// Skip empty lines in front of the first case.
+	for p.peek().Type() == lexer.NEWLINE {
+		p.eat()
+	}
 	nextToken = p.peek()
 	defaultSet := false
 
